@@ -48,6 +48,7 @@ def steps(pre):
     K = lambda P, i: col_of(P[0], i)  # noqa: E731
     out = []
     out.append(("select", lambda P, T: T[0] >> pdt.select(*[K(P, i) for i in reversed(P[0].vis)]), dict(hist=())))
+    out.append(("select_old_handles", lambda P, T: T[0] >> pdt.select(*[c11.old_col_of(P[0], i) for i in reversed(P[0].vis)]), dict(hist=())))
     if len(pre.vis) > 1:
         out.append(("drop", lambda P, T: T[0] >> pdt.drop(K(P, P[0].vis[0])), dict(hist=(), drop=True)))
     out.append(("rename", lambda P, T: T[0] >> pdt.rename({P[0].phys[v0]: P[0].nn("r0")}), dict(hist=())))
@@ -86,8 +87,10 @@ def make_run(skel, label, fn, expect, backend):
             _, new, state, aux, tables, _pr = p.value
             node = new._ast
             # V1
-            if label == "select":
+            if label in ("select", "select_old_handles"):
                 vc.require(p.pc, z3.BoolVal(isinstance(node, VT.Select) and [c._uuid for c in node.select] == [pre.uuids[i] for i in reversed(pre.vis)]), "V1: Select node does not hold the resolved columns in call order", wit)
+                # the selected columns keep their CURRENT names (also when selected through a handle that carries an older name)
+                vc.require(p.pc, TS.seq_eq(list(new._cache.name_to_uuid.keys()), [pre.phys[i] for i in reversed(pre.vis)]), "V1: select changed the name of a column", wit)
             if label == "drop":
                 vc.require(p.pc, z3.BoolVal(isinstance(node, VT.Select) and [c._uuid for c in node.select] == [pre.uuids[i] for i in pre.vis[1:]]), "V1: drop is not the select of the complement in table order", wit)
             if label.startswith("mutate"):
